@@ -24,6 +24,7 @@ import contextlib
 import datetime as _dt
 import hashlib
 import io
+import threading
 
 from .core import Infra, import_repo, show_bool, unhexs
 from .util import FakeClock
@@ -210,9 +211,12 @@ class Impl:
 
     # --- search-side only: re-entrant agents (outside the model: its `run` is atomic) -----------------------------
     def reenter(self, t):
-        """reenter <gate> <cacheOn> <e|a> <depth> <pA> <zA> <yA> <pB> <zB> <yB>
+        """reenter <gate> <cacheOn> <e|a|E|A> <depth> <pA> <zA> <yA> <pB> <zB> <yB>
         A fresh loop; while answering request A the executor (e) / assessor (a) stub issues a nested run(B) on the
         SAME loop (depth 2: while answering B it issues run(C), C = A's verdicts on a third prompt; hard cap 3).
+        E / A: the overlapping request B is issued by ANOTHER THREAD while A's executor / assessor is still busy (the
+        agent waits for it), i.e. the schedule  A look-up, B look-up .. B store, A store.  After the nest every prompt
+        is asked again, twice (innermost first, then outermost first).
         The observation is the constant "ok" on both sides; the oracle judges every reply by the verdicts the agents
         returned for THAT request."""
         L = self.L
@@ -224,16 +228,26 @@ class Impl:
         store = self.ATP_Store(budget=BUDGET, silent=True)
         with contextlib.redirect_stdout(io.StringIO()):
             loop = L.CoherentFeedForwardLoop(budget=store, gate_logic=L.GateLogic(gate), enable_cache=cache, silent=True)
-        reqs = [{"p": p, "z": None, "y": None, "reply": None} for (p, _, _) in chain]
+        reqs = [{"p": p, "z": None, "y": None, "reply": None, "repeats": []} for (p, _, _) in chain]
         T = self.T
+        threaded, where = where in "EA", where.lower()
+        late = []
 
         def nested(i):
-            if i + 1 < len(chain):
+            if i + 1 >= len(chain):
+                return
+            if threaded:     # the overlapping request comes from another thread while this agent is still busy
+                th = threading.Thread(target=lambda: reqs[i + 1].__setitem__("reply", call(i + 1)), daemon=True)
+                th.start()
+                th.join(2.0)
+                if th.is_alive():        # B waits for something A holds: let A go on, B finishes afterwards
+                    late.append(th)
+            else:
                 reqs[i + 1]["reply"] = call(i + 1)
 
         def call(i):
-            try:
-                with contextlib.redirect_stdout(io.StringIO()):
+            try:     # (sys.stdout is process-wide: no redirection while a second thread may be inside; the loop is silent)
+                with (contextlib.nullcontext() if threaded else contextlib.redirect_stdout(io.StringIO())):
                     r = loop.run(prompt_text(chain[i][0]))
             except Exception as e:  # noqa
                 return f"raise:{type(e).__name__}"
@@ -263,7 +277,14 @@ class Impl:
         loop.executor = Agent(EXEC_NAME, "z")
         loop.assessor = Agent(ASSESS_NAME, "y")
         reqs[0]["reply"] = call(0)
-        return "ok", {"kind": "reenter", "gate": gate, "reqs": reqs}
+        for th in late:
+            th.join(5.0)
+        # ... and then every prompt of the nest is asked again (innermost first, then outermost first): a reply served
+        # from the cache must be the reply ITS OWN original got
+        issued = [i for i in range(len(chain)) if reqs[i]["reply"] is not None]
+        for i in list(reversed(issued)) + issued:
+            reqs[i]["repeats"].append(call(i))
+        return "ok", {"kind": "reenter", "gate": gate, "cache": cache, "reqs": reqs}
 
     def run_case(self, case):
         """observations + per line the verdicts the agents ACTUALLY returned: (z, y), each a verdict string, "exc",
